@@ -176,6 +176,8 @@ def gen_pattern(rng, dirs, files, root=("r",)):
         s = rng.choice(["**", "*", "**/", "*/", "*.c", "*.[ch]", "/*", "/*.c", "!*/", "*.*"])
     if target_dir and rng.random() < 0.6 and not s.endswith("/") and not s.endswith("**"):
         s += "/"
+    elif s.endswith("/**") and rng.random() < 0.12:
+        s += "/"                       # "x/**/": pathspec and git read it differently (known finding)
     if rng.random() < 0.05:
         s += " " * rng.randint(1, 2)
     return s
@@ -286,7 +288,8 @@ FIXED_TREE = [[["r"], "D"], [["r", "x.c"], "F"], [["r", "z.h"], "F"], [["r", "a"
               [["r", "build"], "D"], [["r", "build", "z.c"], "F"], [["r", "build", "a"], "D"],
               [["r", "build", "a", "x.c"], "F"], [["r", "lnk.c"], ["L", "a/x.c"]], [["r", "ld"], ["L", "a"]]]
 ATOMS = ["x.c", "/x.c", "*.c", "a/", "/a", "a/b/", "b/", "build/", "build", "a/x.c", "a/b", "a/**", "**/x.c", "a/**/x.c",
-         "*", "*/", "/*", "z.?", "[xz].c", "a/*", "*/x.c", "b/x.c", "**/b/", "/build/a", "a\\/x.c", "x.c ", "\\x.c", "**"]
+         "*", "*/", "/*", "z.?", "[xz].c", "a/*", "*/x.c", "b/x.c", "**/b/", "/build/a", "a\\/x.c", "x.c ", "\\x.c", "**",
+         "a/**/"]
 
 
 def fixed_queries():
@@ -301,7 +304,7 @@ class C09(Check):
             "directory) x 0-5 gitignore lines built from the names in the tree (basename, anchored, directory-only, *, ?, "
             "[..], ** leading/inner/trailing, escapes, comments, negation, trailing blanks) x up to ~12 path spellings "
             "(absolute, relative to a random cwd, with '..' and '.', through directory links); an exhaustive block of all "
-            "lists of <= 2 (quick) / <= 3 (thorough, subset) lines over 28 atoms with optional negation on a fixed 3-level tree; "
+            "lists of <= 2 (quick) / <= 3 (thorough, subset) lines over 29 atoms with optional negation on a fixed 3-level tree; "
             "a malformed stream (random pattern text, stray backslashes/brackets, overlapping / missing / file code-base "
             "directories, link loops). Non-trivial = patterns present, at least one asked source file is a member and at "
             "least one source file below a code-base directory is not.")
@@ -309,7 +312,7 @@ class C09(Check):
         "pathspec 0.12.1 GitIgnoreSpec, pathlib.Path.resolve/rglob/is_relative_to and os.path.realpath are modelled, not verified",
         "pattern lines are inside the supported grammar (Lib/C09_glob.v: printable ASCII, no leading blank, no bracket "
         "expression beyond plain characters/ascending alphanumeric ranges, no run of three or more stars as a segment, no "
-        "'**/' tail other than the lone '**/', no dangling backslash); other lines are counted as unsupported",
+        "dangling backslash); other lines are counted as unsupported",
         "code-base directories are existing directories, none inside another; the tree has no symbolic-link cycle "
         "(cases outside are compared I vs M only)",
         "the file system does not change between construction and queries",
@@ -332,7 +335,7 @@ class C09(Check):
         self.guard_false_differs = 0
         self.q_respelled = 0
         self.q_respelled_member = 0
-        self.class_hits = {1: 0, 2: 0}
+        self.class_hits = {1: 0, 2: 0, 3: 0}
         self.oracle_cases = 0
         self.oracle_files = 0
         self.oracle_bad = []
@@ -360,7 +363,7 @@ class C09(Check):
         for a in ATOMS:                 # overlapping code-base directories (outside the quantifier: I vs M only)
             out.append([FIXED_TREE, [], ["/r", "/r/a"], [a], qs])
             out.append([FIXED_TREE, [], ["/r/a", "/r"], [a], qs])
-        self.stats["exhaustive"] = {"cases": len(lists), "bound": "all lists of <= 2 lines over 28 atoms (second line plain or negated) "
+        self.stats["exhaustive"] = {"cases": len(lists), "bound": "all lists of <= 2 lines over 29 atoms (second line plain or negated) "
                                     + ("and a third over 11 atoms with 4 sign patterns " if not quick else "(plain pairs: one third) ")
                                     + "on the fixed tree, 15 queries each"}
         n_valid = 700 if quick else 12000
@@ -510,23 +513,25 @@ class C09(Check):
         classes = set()
         for i, s, c in zip(ia[1], sa[1], qcls):
             if i != s:
-                if not (i == 1 and s == 0 and c in (1, 2)):
+                if not ((i == 1 and s == 0 and c in (1, 2)) or (c == 3 and i in (0, 1) and s in (0, 1))):
                     return None
                 classes.add(c)
         if ia[3] != sa[2]:
             if isinstance(ia[3], str) or isinstance(sa[2], str):
                 return None
-            if set(sa[2]) - set(ia[3]):
-                return None                      # a member that is not enumerated is never a known class
+            for p in set(sa[2]) - set(ia[3]):
+                if ecls.get(p) != 3:
+                    return None                  # a member that is not enumerated: only the "/**/" class
+                classes.add(3)
             for p in set(ia[3]) - set(sa[2]):
-                if ecls.get(p) not in (1, 2):
+                if ecls.get(p) not in (1, 2, 3):
                     return None
                 classes.add(ecls[p])
         if not classes:
             return None
         for c in classes:
             self.class_hits[c] += 1
-        return "parent-dir-reinclude" if 1 in classes else "parent-dir-renegated"
+        return "dstar-dir-tail" if 3 in classes else "parent-dir-reinclude" if 1 in classes else "parent-dir-renegated"
 
     def shrink(self, case, still_fails):
         entries, cwd, dirs, lines, queries = case
@@ -569,7 +574,7 @@ class C09(Check):
         self.q_total += len(queries)
         self.q_member += sum(1 for x in ans[3] if x == 1)
         for m, x, c in zip(ans[1], ans[3], ans[6]):
-            if c in (1, 2):
+            if c in (1, 2, 3):
                 self.guard_true += 1
                 self.guard_true_differs += m != x
             elif m != x and ans[8] == 0 and ans[5]:
@@ -691,7 +696,8 @@ class C09(Check):
                 "class_predicate_true_queries": self.guard_true, "class_predicate_true_and_M_differs_from_S": self.guard_true_differs,
                 "class_predicate_false_and_M_differs_from_S": self.guard_false_differs,
                 "queries_through_a_link": self.q_link_spelled, "queries_through_a_link_members": self.q_link_member,
-                "known_class_hits": {"parent-dir-reinclude": self.class_hits[1], "parent-dir-renegated": self.class_hits[2]},
+                "known_class_hits": {"parent-dir-reinclude": self.class_hits[1], "parent-dir-renegated": self.class_hits[2],
+                                     "dstar-dir-tail": self.class_hits[3]},
                 "spec_oracle": "git check-ignore --no-index --stdin -z, patterns in .git/info/exclude",
                 "spec_oracle_cases": self.oracle_cases, "spec_oracle_files": self.oracle_files,
                 "spec_oracle_files_ignored": self.oracle_ignored,
